@@ -126,6 +126,22 @@ def case_tiled(ctx, c):
         O.check_tiled(ctx, a, size, out, icls, coords)
 
 
+def case_tiled_addon(ctx, c):
+    """The sibling ``tiled_choice(a, size)`` of the GA operator module (draws loci / alleles for the memetic hill climbers)."""
+    from pybrops.opt.algo.pymoo_addon import tiled_choice as tc
+    g = ctx.rng("tiled-addon", c)
+    a = int(g.integers(1, 12)); k = int(g.integers(0, 4 * a + 3))
+    rname, rng = mkrng(g, c)
+    if rname == "global":
+        rng = None
+    icls = "operator-module sibling" + ("/k<n" if k < a else "/k>=n") + ("/multiple of n" if k % a == 0 else "")
+    coords = [c, "tiled-addon"]
+    ctx.case("tiled-addon:" + icls, a, k, rname, trivial=a < 2 or k == 0)
+    ok, out = guarded(ctx, "tiled", icls, coords, lambda: tc(a, k, random_state=rng))
+    if ok:
+        O.check_tiled(ctx, numpy.arange(a), k, numpy.asarray(out), icls, coords, site="pymoo_addon.tiled_choice")
+
+
 def case_axis(ctx, c):
     from pybrops.core.random.sampling import axis_shuffle
     g = ctx.rng("axis", c)
@@ -182,7 +198,7 @@ def case_outcross(ctx, c):
         ctx.sumnote("outcross repeats removed", d0 - d1)
 
 
-FAMILIES = {"sus": (case_sus, 12000, 400000), "tiled": (case_tiled, 4000, 100000),
+FAMILIES = {"sus": (case_sus, 12000, 400000), "tiled": (case_tiled, 4000, 100000), "tiled-addon": (case_tiled_addon, 1500, 40000),
             "axis": (case_axis, 3000, 60000), "outcross": (case_outcross, 4000, 100000)}
 
 
